@@ -1101,6 +1101,39 @@ var c11Tables = []c11Table{
 
 func (w *Workspace) structuralC11Frames() *FuncResult {
 	res := &FuncResult{Key: "custom modules: who may write the per-account tables"}
+	// every message handler is under a (verified) contract: a handler nobody wrote a contract for is a message about
+	// which none of the properties says anything
+	for _, mod := range customModules {
+		kp := w.ssaPkgs[modPath+"/x/"+mod+"/keeper"]
+		if kp == nil {
+			continue
+		}
+		mt, ok := kp.Members["msgServer"].(*ssa.Type)
+		if !ok {
+			continue
+		}
+		var names []string
+		for _, t := range []types.Type{mt.Type(), types.NewPointer(mt.Type())} {
+			ms := w.prog.MethodSets.MethodSet(t)
+			for i := 0; i < ms.Len(); i++ {
+				if fn := w.prog.MethodValue(ms.At(i)); fn != nil && fn.Pkg == kp && fn.Synthetic == "" && ast.IsExported(fn.Name()) {
+					names = append(names, fn.Name())
+				}
+			}
+		}
+		sort.Strings(names)
+		seen := map[string]bool{}
+		for _, n := range names {
+			if seen[n] {
+				continue
+			}
+			seen[n] = true
+			ct := w.contracts[modPath+"/x/"+mod+"/keeper::(msgServer)."+n]
+			ok := ct != nil && !ct.Trusted
+			res.Obls = append(res.Obls, structural("x/"+mod+"/keeper.(msgServer)."+n, "message_handler_is_under_contract", []string{"C11"}, ok,
+				fmt.Sprintf("the handler of %s in x/%s has no verified contract: nothing is proved about what this message may change", n, mod)))
+		}
+	}
 	for _, tb := range c11Tables {
 		kp := w.ssaPkgs[modPath+"/x/"+tb.Mod+"/keeper"]
 		if kp == nil {
